@@ -301,28 +301,7 @@ func SubEx[C any](h *H, name string, n int, gen func(*rapid.T) C, prop func(C) V
 		}
 		return
 	}
-	for _, path := range h.savedCases(name) {
-		_, c, err := loadCase[C](path)
-		if err != nil {
-			h.T.Logf("ignoring unreadable saved case %s: %v", path, err)
-			continue
-		}
-		v := safe(c)
-		s.Replayed++
-		h.note(s, c, v)
-		if f := h.knownFor(path); f != nil {
-			if v.Err != "" {
-				fmt.Printf("KNOWN-FINDING: property=%s %s\n", h.ID, f.Text)
-			} else {
-				fmt.Printf("note: listed finding no longer reproduces: property=%s %s\n", h.ID, f.Text)
-			}
-			continue
-		}
-		if v.Err != "" {
-			h.violation(name, c, v.Err)
-			h.T.Errorf("saved case %s: %s", path, v.Err)
-		}
-	}
+	runSaved(h, s, name, safe)
 	if n <= 0 {
 		return
 	}
@@ -359,6 +338,34 @@ func SubEx[C any](h *H, name string, n int, gen func(*rapid.T) C, prop func(C) V
 	})
 }
 
+// runSaved evaluates the saved cases of a sub-check: regressions of fixed
+// defects (a failure is a violation) and probes of listed open findings (a
+// failure prints KNOWN-FINDING).
+func runSaved[C any](h *H, s *subStats, name string, safe func(C) Verdict) {
+	for _, path := range h.savedCases(name) {
+		_, c, err := loadCase[C](path)
+		if err != nil {
+			h.T.Logf("ignoring unreadable saved case %s: %v", path, err)
+			continue
+		}
+		v := safe(c)
+		s.Replayed++
+		h.note(s, c, v)
+		if f := h.knownFor(path); f != nil {
+			if v.Err != "" {
+				fmt.Printf("KNOWN-FINDING: property=%s %s\n", h.ID, f.Text)
+			} else {
+				fmt.Printf("note: listed finding no longer reproduces: property=%s %s\n", h.ID, f.Text)
+			}
+			continue
+		}
+		if v.Err != "" {
+			h.violation(name, c, v.Err)
+			h.T.Errorf("saved case %s: %s", path, v.Err)
+		}
+	}
+}
+
 // Enumerate runs prop over a finite list of cases completely (exhaustive sub-check).
 func Enumerate[C any](h *H, name string, cases func(yield func(C)), prop func(C) Verdict) {
 	s := h.sub(name)
@@ -378,6 +385,14 @@ func Enumerate[C any](h *H, name string, cases func(yield func(C)), prop func(C)
 		}
 		return
 	}
+	runSaved(h, s, name, func(c C) (v Verdict) {
+		defer func() {
+			if p := recover(); p != nil {
+				v = Verdict{Err: fmt.Sprintf("harness panic: %v", p)}
+			}
+		}()
+		return prop(c)
+	})
 	reported := 0
 	cases(func(c C) {
 		var v Verdict
@@ -426,11 +441,11 @@ func (h *H) Finish() {
 		subs[n] = s
 	}
 	cov := map[string]any{
-		"evaluations":         evals,
-		"distinct_nontrivial": len(h.distinct),
-		"rule":                h.rule,
-		"samples":             h.samples,
-		"subchecks":           subs,
+		"evaluations":            evals,
+		"distinct_nontrivial":    len(h.distinct),
+		"rule":                   h.rule,
+		"samples":                h.samples,
+		"subchecks":              subs,
 		"skipped_outside_domain": skipped,
 	}
 	if exh {
